@@ -164,8 +164,21 @@ func c03Eval(c *Ctx, cs Case) {
 		bits = int(v)
 	}
 	shapes := certShapes(c)
-	certOf := func(k int) (*x509.Certificate, crypto.Signer) {
-		key := poolKey(c, bits, k)
+	// the certificate a key signs under: its name and serial number (a function of the case and of the key index)
+	shapeOf := func(k int) certShape {
+		if dn := int(cs.I("dn")); dn > 0 {
+			// names as commercial and corporate CAs issue them: C, ST, L, O, OU and CN, 100..300 bytes of DER in all
+			// (the lengths run with dn and the key), under serial numbers of 16..20 octets (high bit clear / set)
+			w := func(base string, n int) string { return (base + strings.Repeat(" "+base, n/(len(base)+1)+1))[:n] }
+			n := 8 + 9*((dn+3*k)%5)
+			name := pkix.Name{Country: []string{"NO"}, Province: []string{w("Vestland fylke", n)}, Locality: []string{w("Bergen", 6+n/2)},
+				Organization: []string{w("Verification Authority Holding AS", 20+n)}, OrganizationalUnit: []string{w("Secure Boot Signing Services", 12+n)},
+				CommonName: w(fmt.Sprintf("Code Signing CA %d G%d", k, dn), 24+n/2)}
+			sb := sha256.Sum256([]byte(fmt.Sprintf("serial %d %d", dn, k)))
+			ser := sb[:16+(dn+k)%5]
+			ser[0] = ser[0]&0x7f | 0x01 | byte(dn%2)<<7
+			return certShape{issuer: name, serial: new(big.Int).SetBytes(ser), desc: fmt.Sprintf("dn%d/key%d/%d", dn, k, len(ser))}
+		}
 		if pad := int(cs.I("cnpad")); pad > 0 {
 			// names of every length residue: the signature length, hence the entry padding, takes every value mod 8
 			// and, by pad mod 3: all different / one serial under different names / one name under different serials
@@ -176,12 +189,22 @@ func c03Eval(c *Ctx, cs Case) {
 			case 2:
 				name = "signer" + strings.Repeat("p", pad)
 			}
-			return makeRSACert(key, certShape{issuer: pkix.Name{CommonName: name}, serial: big.NewInt(serial), desc: fmt.Sprintf("pad%d/%s/%d", pad, name, serial)}), key
+			return certShape{issuer: pkix.Name{CommonName: name}, serial: big.NewInt(serial), desc: fmt.Sprintf("pad%d/%s/%d", pad, name, serial)}
 		}
 		if k == 1 {
-			return makeRSACert(key, shapes[9]), key // issued by a CA: issuer and subject differ
+			return shapes[9] // issued by a CA: issuer and subject differ
 		}
-		return makeRSACert(key, shapes[k%len(shapes)]), key
+		return shapes[k%len(shapes)]
+	}
+	certOf := func(k int) (*x509.Certificate, crypto.Signer) {
+		key := poolKey(c, bits, k)
+		return makeRSACert(key, shapeOf(k)), key
+	}
+	// twinOf: a certificate with the issuer name and serial number of key k's certificate (what a signature names its
+	// signer by) that holds ANOTHER public key - a re-keyed certificate, or one made to look like the signer's. It
+	// signed nothing.
+	twinOf := func(k int) *x509.Certificate {
+		return makeRSACert(poolKey(c, 2048, 4+k%2), shapeOf(k))
 	}
 	cls := "fixture"
 	if cs.S("path") == "" {
@@ -512,6 +535,13 @@ func c03Eval(c *Ctx, cs Case) {
 			if !signedBy[k] && got == "ok true" {
 				fail(fmt.Sprintf("step %d: the output verifies against certificate %d, which did not sign it", i, k), got, "not ok")
 			}
+			// ... and a certificate that did not sign, with another key under the NAME AND SERIAL NUMBER of one that did
+			// (or did not): "against no certificate that did not"
+			if tw := goVerifyClass(out, twinOf(k)); tw == "ok true" || strings.Contains(tw, "panic") {
+				fail(fmt.Sprintf("step %d: the output verifies against a certificate that did not sign it: another key under the issuer name and serial number of certificate %d (which signed: %v)", i, k, signedBy[k]), tw, "not ok")
+			} else {
+				c.Class(fmt.Sprintf("twin-certificate/signed-by-the-named-one=%v/%s", signedBy[k], strings.ReplaceAll(tw, " ", "-")))
+			}
 			c.Trace()
 			if m, sp := askPeVerify(c, out, cert); m != got || (got == "ok true") != (sp == "true") {
 				c.Fail(Failure{Kind: "tie", What: fmt.Sprintf("step %d cert %d: Verify model/spec/implementation disagree", i, k), Case: cs, Model: m + " spec=" + sp, Go: got})
@@ -548,6 +578,13 @@ func c03Eval(c *Ctx, cs Case) {
 				}
 				if signedBy[k] != (ok && verr == nil) {
 					fail(fmt.Sprintf("step %d: Verify on the signed object itself (certificate %d, signed by it: %v)", i, k, signedBy[k]), fmt.Sprint(ok, verr), fmt.Sprint(signedBy[k]))
+				}
+				{
+					var tok bool
+					var terr error
+					if pan, _ := safely(func() { tok, terr = p.Verify(twinOf(k)) }); pan || (tok && terr == nil) {
+						fail(fmt.Sprintf("step %d: Verify on the signed object itself succeeds for a certificate that did not sign: another key under the issuer name and serial number of certificate %d", i, k), fmt.Sprint(pan, tok, terr), "not ok")
+					}
 				}
 				// the TRANSLATED Verify loop on the object's table, with the translated memoising closure and the TRANSLATED
 				// (*Authenticode).verifyDigest (algorithm, digest length, closure call, digest comparison, Pkcs.Verify); the
@@ -690,7 +727,10 @@ func c03Gen(c *Ctx) {
 		cs["steps"] = steps
 		cs["bits"] = int64(bitsets[c.Rng.Intn(len(bitsets))])
 		cs["cnpad"] = int64(i % 9) // 0: the standard shapes; 1..8: common names of 8 consecutive lengths
-		if i%3 != 0 {              // two histories of three: digest queries under other algorithms between the steps
+		if i%5 == 4 {              // every fifth history: long six-part issuer names under 16..20-octet serial numbers
+			cs["dn"] = int64(1 + i/5%10)
+		}
+		if i%3 != 0 { // two histories of three: digest queries under other algorithms between the steps
 			cs["hq"] = int64(1 + c.Rng.Intn(1<<20))
 		}
 		// the reader kinds: two histories of three hand the image (and every file that is re-parsed) over through
@@ -712,7 +752,7 @@ func c03Gen(c *Ctx) {
 
 func init() {
 	register("C03", &PropDef{
-		Rule:   "well-formed images from the C01 generator (all layout classes; unsigned and with an existing 1- or 2-entry certificate table) x signing histories of 1..3 signatures by two RSA keys (one under a CA-issued certificate; 2048; thorough also 3072/4096) in any order, the same key possibly twice, under certificates whose names run through 8 consecutive lengths so that the signature length takes every residue mod 8, the signers' certificates sharing nothing / the serial number only / the issuer name only, with serialise/re-parse after a random subset of steps; every third image carries a left-over certificate-table address with size 0 in its directory entry (address classes as in C01: 1, inside headers / sections / trailing data, end of sections, file end, padded file end, beyond the file, 2^32-1), i.e. an image whose signatures were removed by clearing the size; every serialised image of a history stays held (with a private copy) while the object is signed, queried and serialised again and is compared with its copy after each step, and each step serialises twice; in two histories of three the caller asks the objects for digests under other algorithms between the steps (one of SHA-1/256/384/512, chosen by the history, of the object about to be signed, of the signed object before it is verified, and of the re-parsed output, which is then verified on that same object): each must be that algorithm over the specification's hash input and must leave signing and verification as they are; every second history (and each repository binary once) is signed WHILE A SECOND IMAGE IS SIGNED by another goroutine through an object of its own (the same layout with other contents; for a repository binary another repository binary) - both objects read through caller-supplied io.ReaderAts that make the two goroutines take turns at read granularity under the history's schedule (first turn 0..1 reads, later turns 0..3; sched.go), so each Sign is parked in the middle of hashing while the other proceeds, deterministically - and after each such step both images are verified at the same time: the image's output is judged as always, the partner's signature must embed the specification digest of the partner's output, which must verify; Signatures() of the re-parsed output must list exactly the old entries and the new signatures (body bytes, dwLength = 8 + body, revision 0x0200, type 2) and Open() must deliver the bytes of Bytes(); after every step the output bytes are checked by an independent walker, its digest by the Lean Spec, and the 3-certificate verification matrix by the library, the Lean Impl model and the Lean Spec. READER KINDS: an image is the bytes an io.ReaderAt delivers, whatever else the reader's type offers. In two histories of three (and for every repository binary) the image - and every signed file that a re-parse step of the history hands back to Parse - is handed over through one of: a reader that returns io.EOF together with the last read, an io.SectionReader window into a larger buffer, an io.SectionReader DECLARED LARGER than the data (by 1, 7, 8, 9, 4096, 2^20 or 2^40 bytes: Size() is not the file length), the io.NewSectionReader(r, 0, 1<<63-1) idiom, a caller's type whose Size() method is the capacity of its storage, a strings.Reader, a regular *os.File (the two section kinds and the capacity kind twice as often; in the two-goroutine histories they wrap the turn-taking reader); independently, in two histories of three the output of every step is re-parsed through one of these kinds, must report the digest from before signing there and must verify there against the certificate that has just signed it. The layout oracle (original bytes kept, zero padding to 8, directory entry = aligned table to end of file), the digest, the table walk and the verification matrix are the same for every reader kind. Every case is non-trivial; distinct = distinct (image spec, history, reader kinds).",
+		Rule:   "well-formed images from the C01 generator (all layout classes; unsigned and with an existing 1- or 2-entry certificate table) x signing histories of 1..3 signatures by two RSA keys (one under a CA-issued certificate; 2048; thorough also 3072/4096) in any order, the same key possibly twice, under certificates whose names run through 8 consecutive lengths so that the signature length takes every residue mod 8, the signers' certificates sharing nothing / the serial number only / the issuer name only, with serialise/re-parse after a random subset of steps; every third image carries a left-over certificate-table address with size 0 in its directory entry (address classes as in C01: 1, inside headers / sections / trailing data, end of sections, file end, padded file end, beyond the file, 2^32-1), i.e. an image whose signatures were removed by clearing the size; every serialised image of a history stays held (with a private copy) while the object is signed, queried and serialised again and is compared with its copy after each step, and each step serialises twice; in two histories of three the caller asks the objects for digests under other algorithms between the steps (one of SHA-1/256/384/512, chosen by the history, of the object about to be signed, of the signed object before it is verified, and of the re-parsed output, which is then verified on that same object): each must be that algorithm over the specification's hash input and must leave signing and verification as they are; every second history (and each repository binary once) is signed WHILE A SECOND IMAGE IS SIGNED by another goroutine through an object of its own (the same layout with other contents; for a repository binary another repository binary) - both objects read through caller-supplied io.ReaderAts that make the two goroutines take turns at read granularity under the history's schedule (first turn 0..1 reads, later turns 0..3; sched.go), so each Sign is parked in the middle of hashing while the other proceeds, deterministically - and after each such step both images are verified at the same time: the image's output is judged as always, the partner's signature must embed the specification digest of the partner's output, which must verify; Signatures() of the re-parsed output must list exactly the old entries and the new signatures (body bytes, dwLength = 8 + body, revision 0x0200, type 2) and Open() must deliver the bytes of Bytes(); after every step the output bytes are checked by an independent walker, its digest by the Lean Spec, and the 3-certificate verification matrix by the library, the Lean Impl model and the Lean Spec. CERTIFICATES THAT DID NOT SIGN under a signer's name: for each of the four certificates of the matrix a twin - the same issuer name and serial number (what a signature names its signer by), another RSA key, which signed nothing - is asked after every step, on the re-parsed output and on the signed object itself: Verify must not succeed for it, whether the certificate it imitates has signed or not. SIGNERS' NAMES: every fifth history signs under certificates as commercial and corporate CAs issue them - issuer names of six parts (C, ST, L, O, OU, CN) of roughly 150..320 bytes of DER, the part lengths running with the history and the key, under serial numbers of 16..20 octets with the high bit clear or set: signing must succeed and every oracle of the history applies unchanged. READER KINDS: an image is the bytes an io.ReaderAt delivers, whatever else the reader's type offers. In two histories of three (and for every repository binary) the image - and every signed file that a re-parse step of the history hands back to Parse - is handed over through one of: a reader that returns io.EOF together with the last read, an io.SectionReader window into a larger buffer, an io.SectionReader DECLARED LARGER than the data (by 1, 7, 8, 9, 4096, 2^20 or 2^40 bytes: Size() is not the file length), the io.NewSectionReader(r, 0, 1<<63-1) idiom, a caller's type whose Size() method is the capacity of its storage, a strings.Reader, a regular *os.File (the two section kinds and the capacity kind twice as often; in the two-goroutine histories they wrap the turn-taking reader); independently, in two histories of three the output of every step is re-parsed through one of these kinds, must report the digest from before signing there and must verify there against the certificate that has just signed it. The layout oracle (original bytes kept, zero padding to 8, directory entry = aligned table to end of file), the digest, the table walk and the verification matrix are the same for every reader kind. Every case is non-trivial; distinct = distinct (image spec, history, reader kinds).",
 		Assume: []string{"no two signing certificates share both issuer and serial (two different keys under one issuer+serial make the verification loop stop with an error at the first of them; noted, not claimed)", "RSA PKCS#1 v1.5 signatures are deterministic"},
 		Eval:   c03Eval, Gen: c03Gen,
 	})
